@@ -31,7 +31,7 @@ func sameList(a, b []string) bool {
 }
 
 func c11(run *ev.Run) int {
-	run.SetRule("cases = random multimaps (1..10 X-... keys plus up to 2 ordinary names with varied first letters such as Trace-Id, Tenant, Trailer-Extra, T, 1..4 printable-ASCII values, -Bin keys with base64 of random bytes, some keys shared between headers, trailers and error metadata) as request headers, response headers, response trailers and error metadata x 3 protocols x 4 kinds x {success with >=1 message, success with 0 messages, error before first message, error after messages} x HTTP/1.1 and HTTP/2 over real sockets; plus binary-header helper round trips over all byte strings up to length 2 (3 thorough) in padded and unpadded form; distinct by (config, scenario, key-overlap class)")
+	run.SetRule("cases = random multimaps (1..10 X-... keys plus up to 2 ordinary names with varied first letters such as Trace-Id, Tenant, Trailer-Extra, T, 1..4 printable-ASCII values, -Bin keys with base64 of random bytes, some keys shared between headers, trailers and error metadata) as request headers, response headers, response trailers and error metadata x 3 protocols x 4 kinds x {success with >=1 message, success with 0 messages, error before first message, error after messages (one in four inside a multi-error), unary/client-stream response whose message cannot be marshalled} x HTTP/1.1 and HTTP/2 over real sockets; plus binary-header helper round trips over all byte strings up to length 2 (3 thorough) in padded and unpadded form; distinct by (config, scenario, key-overlap class)")
 	run.Assume("names starting with \"Trailer-\" are used for trailers only: the unary Connect protocol defines every response header with that prefix to be a trailer, so a header of that name cannot be told apart from one by design")
 	run.Assume("header names are valid and outside protocol-reserved prefixes; values are printable ASCII without leading/trailing blanks")
 	srv := svc.NewServer()
@@ -55,7 +55,7 @@ func c11(run *ev.Run) int {
 			}
 		}
 	}
-	scenarios := []string{"ok", "ok-zero", "err-early", "err-late"}
+	scenarios := []string{"ok", "ok-zero", "err-early", "err-late", "send-fails"}
 	per := run.Pick(12, 2000)
 	parallel(16, len(cfgs), func(ci int) {
 		c := cfgs[ci]
@@ -64,6 +64,9 @@ func c11(run *ev.Run) int {
 		for _, sc := range scenarios {
 			if (c.kind == svc.Unary || c.kind == svc.ClientStream) && (sc == "ok-zero" || sc == "err-late") {
 				continue
+			}
+			if sc == "send-fails" && c.kind != svc.Unary && c.kind != svc.ClientStream {
+				continue // streams have the failed-first-send variant of the other scenarios
 			}
 			for i := 0; i < per; i++ {
 				key := fmt.Sprintf("c11/%s/%s/i=%d", cfg, sc, i)
@@ -166,6 +169,19 @@ func c11Case(run *ev.Run, srv *svc.Server, cs *svc.ClientSet, kind svc.Kind, pro
 			}
 		}
 		prog.Return = ce
+		if r.Intn(4) == 0 {
+			// the coded error inside a multi-error
+			prog.Return = errors.Join(errors.New("another failure"), ce)
+			overlap += "+joined-error"
+		}
+	}
+	sendFails := sc == "send-fails"
+	if sendFails {
+		// the handler returns a response (with its headers and trailers) whose
+		// message the codec cannot marshal: the call fails, and what the handler
+		// attached must still be visible, once, in the error's metadata
+		prog.Steps = append(prog.Steps, svc.Step{Op: "send", Msg: &gen.Msg{Id: 1, Note: "\xff\xfe"}})
+		errM = http.Header{}
 	}
 	call := srv.Reg.New("c11", prog)
 	defer srv.Reg.Drop(call)
@@ -201,7 +217,7 @@ func c11Case(run *ev.Run, srv *svc.Server, cs *svc.ClientSet, kind svc.Kind, pro
 			}
 		}
 	}
-	if failing {
+	if failing || sendFails {
 		var ce *connect.Error
 		if !errors.As(cl.Err, &ce) {
 			run.Violation(key+"/not-failed", "failing call did not return a *connect.Error: "+errStr(cl.Err), detail)
@@ -209,15 +225,28 @@ func c11Case(run *ev.Run, srv *svc.Server, cs *svc.ClientSet, kind svc.Kind, pro
 		}
 		detail["error_meta_seen"] = ce.Meta()
 		srcs := []http.Header{respH, respT, errM}
-		if kind == svc.Unary || kind == svc.ClientStream {
+		if (kind == svc.Unary || kind == svc.ClientStream) && !sendFails {
 			// these handler APIs attach headers/trailers to the Response value,
 			// which does not exist when the handler returns an error
 			srcs = []http.Header{errM}
 		}
+		occurs := map[string]int{}
+		for _, src := range srcs {
+			for k := range src {
+				occurs[k]++
+			}
+		}
 		for _, src := range srcs {
 			for k, want := range src {
 				run.Count("error.meta.keys.compared", 1)
-				if got := ce.Meta().Values(k); !subseq(got, want) {
+				got := ce.Meta().Values(k)
+				okv := subseq(got, want)
+				if occurs[k] == 1 {
+					// a key that only one carrier used: the list is exactly the
+					// handler's (values unchanged - nothing lost, nothing repeated)
+					okv = sameList(got, want)
+				}
+				if !okv {
 					detail["key"], detail["got"] = k, got
 					run.Violation(key+"/error-meta", fmt.Sprintf("on failure the error's metadata has %q = %q, the handler set %q", k, got, want), detail)
 					return
